@@ -44,11 +44,62 @@ def run_with_S(prog: Program, fname: str, args: dict, S_override=None):
             fr.env["S"] = S_override
             info["overridden"] = True
 
-    it = Interp(prog, dom, depth=0, call_hook=hook, stmt_hook=stmt_hook)
+    it = Interp(prog, dom, depth=2, call_hook=hook, stmt_hook=stmt_hook)
     res, fr = it.run(fi, dict(args))
     if "S" in fr.env and "S_orig" not in info:
         info["S_orig"] = fr.env["S"]
     return res, fr, info, fi
+
+
+# ROMS stretching functions as documented (myroms.org "Vertical S-coordinate"): Song & Haidvogel 1994 (1),
+# Shchepetkin 2005 (2, alpha = beta = 1), Shchepetkin 2010 (4). Trusted reference table of this checker.
+ROMS_STRETCHING_REFERENCE = """
+def s_stretch_reference(S, theta_s, theta_b, Vstretching):
+    if Vstretching == 1:
+        return (1.0 - theta_b) * np.sinh(theta_s * S) / np.sinh(theta_s) + theta_b * (np.tanh(theta_s * (S + 0.5)) / (2.0 * np.tanh(0.5 * theta_s)) - 0.5)
+    if Vstretching == 2:
+        Csur = (1.0 - np.cosh(theta_s * S)) / (np.cosh(theta_s) - 1.0)
+        Cbot = np.sinh(theta_b * (S + 1.0)) / np.sinh(theta_b) - 1.0
+        mu = (S + 1.0) * (1.0 + (1.0 - (S + 1.0)))
+        return mu * Csur + (1.0 - mu) * Cbot
+    if Vstretching == 4:
+        C = (1.0 - np.cosh(theta_s * S)) / (np.cosh(theta_s) - 1.0)
+        return (np.exp(theta_b * C) - 1.0) / (1.0 - np.exp(-theta_b))
+"""
+
+
+def generic_arm(v):
+    """The arm of a two-armed value taken for generic parameters theta_s > 0, theta_b > 0 (special
+    cases for a vanishing parameter are limits, outside the formula comparison)."""
+    from .. import roms
+    from ..words import cmp_norm
+
+    if not isinstance(v, Phi):
+        return v
+    cands = []
+    for conds, leaf in roms.flatten_phi(v):
+        keep = True
+        for test, taken in conds:
+            truth = None
+            try:
+                n = cmp_norm(ast.parse(test, mode="eval").body)
+            except SyntaxError:
+                n = None
+            if n is not None:
+                l, op, r = n
+                if r in ("theta_s", "theta_b") and l in ("0", "0.0"):
+                    l, r = r, l
+                    op = {"<": ">", "<=": ">=", ">": "<", ">=": "<=", "==": "==", "!=": "!="}[op]
+                if l in ("theta_s", "theta_b") and r in ("0", "0.0"):
+                    truth = {"==": False, "!=": True, ">": True, ">=": True, "<": False, "<=": False}[op]
+            if truth is None:
+                return None
+            if truth != taken:
+                keep = False
+                break
+        if keep:
+            cands.append(leaf)
+    return cands[0] if len(cands) == 1 else None
 
 
 def read_only_arguments(prog: Program, rep: Report, rule: str, funcs) -> None:
@@ -81,6 +132,7 @@ def run(prog: Program, rep: Report, tier: str) -> None:
     rep.rule("R12.3", "end points: C(-1) = -1, C(0) = 0 for every Vstretching; z(-1,-1) = -h, z(0,0) = 0 for every Vtransform", 10)
     rep.rule("R12.4", "wiring: Cs_r/z_r use stagger rho, Cs_w/z_w use stagger w; unknown options raise", 8)
 
+    rep.rule("R12.6", "each stretching curve equals the documented ROMS function of its Vstretching option (reference table, compared as normal forms)", 3)
     rep.rule("R12.5", "the vertical-grid functions and Grid's query methods never write through their array arguments (views of the bathymetry / level arrays stay read-only)", 8)
     read_only_arguments(prog, rep, "R12.5", [fi for fi in prog.all_functions() if fi.module.name == prog.role_module["grid"] and ((fi.cls is None and fi.name in ("sdepth", "s_stretch", "z2s", "z2s_kernel", "sample3D", "sample3DUV", "trilinear")) or (fi.cls == prog.role_class["grid"] and fi.name != "__init__"))])
 
@@ -125,6 +177,27 @@ def run(prog: Program, rep: Report, tier: str) -> None:
             res, fr, info, _ = run_with_S(prog, "s_stretch", dict(N=N, theta_s=NF.atom("theta_s"), theta_b=NF.atom("theta_b"), stagger="w", Vstretching=NF.const(vs)), S_override=s_val)
             ok = isinstance(res, NF) and res == want
             rep.check("R12.3", fi.qual, f"Vstretching {vs}: C(S = {s_val}) = {want}", ok, what_bad=f"the stretching curve takes the value {vtext(res)[:200]} at S = {s_val}; the curves must rise from -1 (bottom) to 0 (surface)", what_ok=str(want), loc=fi.loc())
+    # R12.6 the curves are the ROMS stretching functions (reference table evaluated by the same engine)
+    import ast as _ast
+    from ..program import FuncInfo
+
+    refnode = _ast.parse(ROMS_STRETCHING_REFERENCE).body[0]
+    rfi = FuncInfo(fi.module, "reference.s_stretch", refnode, None)
+    for vs in vs_values:
+        if vs not in (1, 2, 4):
+            rep.add("R12.6", fi.qual, f"Vstretching {vs}: formula", None, "no reference formula tabulated for this option", fi.loc())
+            continue
+        args = dict(theta_s=NF.atom("theta_s"), theta_b=NF.atom("theta_b"), Vstretching=NF.const(vs))
+        res, fr, info, _ = run_with_S(prog, "s_stretch", dict(N=N, stagger="w", **args), S_override=NF.atom("S"))
+        dom2 = NFDomain(scalars={"N", "theta_s", "theta_b", "S"})
+        it2 = Interp(prog, dom2, depth=0)
+        want, _fr = it2.run(rfi, dict(S=NF.atom("S"), **args))
+        res = generic_arm(res)
+        if res is None:
+            rep.add("R12.6", fi.qual, f"Vstretching {vs}: C(S) is the ROMS stretching function", None, "the branch taken for generic parameters (theta_s > 0, theta_b > 0) could not be singled out", fi.loc())
+            continue
+        ok = isinstance(res, NF) and isinstance(want, NF) and res == want
+        rep.check("R12.6", fi.qual, f"Vstretching {vs}: C(S) is the ROMS stretching function", ok, what_bad=f"C(S) = {vtext(res)[:160]}; the ROMS definition is {vtext(want)[:160]}: same end points possible, but the levels no longer sit where the ocean model put them (and the curve need not be monotone)", what_ok="equal as rational functions of sinh/cosh/tanh/exp atoms", loc=fi.loc())
     fd = prog.func("ROMS.sdepth")
     vt_values = sorted({int(ast.literal_eval(n.comparators[0])) for n in walk_no_nested(fd.node) if isinstance(n, ast.Compare) and unparse(n.left) == "Vtransform" and isinstance(n.comparators[0], ast.Constant)})
     if not vt_values:
@@ -187,6 +260,8 @@ AUDIT = [
     Mut("sdepth-inplace-bathymetry", R, "        B = 1.0 + Hc / H\n        R2: Field = (A / B).reshape(outshape)", "        A *= H\n        H += Hc\n        A /= H\n        R2: Field = A.reshape(outshape)", rule="R12.5"),
     Mut("depth-clips-argument", R, "        I: np.ndarray = X.round().astype(int) - self.i0\n        J: np.ndarray = Y.round().astype(int) - self.j0\n        R: ParticleArray = self.H[J, I]", "        np.clip(X, self.xmin, self.xmax, out=X)\n        I: np.ndarray = X.round().astype(int) - self.i0\n        J: np.ndarray = Y.round().astype(int) - self.j0\n        R: ParticleArray = self.H[J, I]", rule="R12.5"),
     Mut("benign-sdepth-local-copy", R, "        B = 1.0 + Hc / H\n", "        B = 1.0 + Hc / H\n        B += 0.0\n", expect="silent"),
+    Mut("vs2-blend-swapped", R, "        C2: np.ndarray = mu * Csur + (1 - mu) * Cbot", "        C2: np.ndarray = Csur + mu * (Cbot - Csur)", rule="R12.6"),
+    Mut("benign-vs2-blend-rewritten", R, "        C2: np.ndarray = mu * Csur + (1 - mu) * Cbot", "        C2: np.ndarray = Cbot + mu * (Csur - Cbot)", expect="silent"),
     Mut("z2s-weight", R, "A[n] = (zr[k] + Z[n]) / (zr[k] - zr[k - 1])", "A[n] = (zr[k] + Z[n]) / (zr[k] + zr[k - 1])", rule="R12.1"),
     Mut("z2s-bottom", R, "        elif k > 0:\n            K[n] = k", "        elif k > 1:\n            K[n] = k", rule="R12.1"),
     Mut("benign-S-form", R, "        S = -1.0 + (0.5 + np.arange(N)) / N  # Unstretched coordinates", "        S = (np.arange(N) + 0.5 - N) / N  # Unstretched coordinates", expect="silent"),
